@@ -220,7 +220,7 @@ Sound == Done => /\ (~GoodTable => accRE <= BoundRE)
 \* (total accepted fraction <= max(BoundRE, BoundLD) / P^2 plus the poles, at most slots * P of P^2 points)
 PropSound == Done /\ ~GoodPairs => accRE <= BoundRE \/ accLD <= BoundLD
 \* a wrong output shared by a table cell and all its lookups passes the whole Sum / LDC part: only the RE terms reject it
-TblLkOnlyRE == Done /\ cor[1] = "tbl_lk" => accLD = nonPole /\ ~GoodTable /\ ~GoodPairs
+TblLkOnlyRE == Done /\ cor[1] = "tbl_lk" => accLD = nonPole /\ ~GoodTable       \* the entry may be unused (then all pairs are good) or used
 \* the poles are few: the statement above covers all but a slots/P fraction of the challenges
 PolesFew == Done => P * P - nonPole <= (Len(tb) + Len(lk)) * P
 =============================================================================
